@@ -309,7 +309,29 @@ func exploreOnce(prop string, sc *Scenario, cfg ExploreCfg, res *Result, sites m
 		st2 := sc.New()
 		e2 := vsched.Run(o, nil, func() { sc.Body(st2) })
 		if fmt.Sprint(e1.TraceLog) != fmt.Sprint(e2.TraceLog) || e1.Verdict != e2.Verdict {
-			vsched.InternalError("scenario %s is not deterministic under the default schedule:\n%v\n%v", sc.Name, e1.TraceLog, e2.TraceLog)
+			// The same schedule gave two different executions: the code under test carries state from
+			// one execution to the next (or consults something the scheduler does not own). If an
+			// oracle objects to either execution that is a violation observed on the real code and is
+			// reported as such; otherwise it is an internal error, never a verdict.
+			fs := append(sc.Check(st1, e1), sc.Check(st2, e2)...)
+			if len(fs) == 0 {
+				vsched.InternalError("scenario %s is not deterministic under the default schedule:\n%v\n%v", sc.Name, e1.TraceLog, e2.TraceLog)
+			}
+			seenSig := map[string]bool{}
+			for _, f := range fs {
+				if seenSig[f.Sig] {
+					continue
+				}
+				seenSig[f.Sig] = true
+				res.NViolations++
+				if res.SigCounts == nil {
+					res.SigCounts = map[string]int{}
+				}
+				res.SigCounts[f.Sig]++
+				res.addViolation(Violation{Property: prop, Scenario: sc.Name, Cfg: raw, Sig: f.Sig,
+					Msg: f.Msg + "\n  (the default schedule run twice gave two different executions: state survives from one execution to the next)"})
+			}
+			return nil
 		}
 		if sc.Outcome != nil && e1.Verdict == "" && sc.Outcome(st1) != sc.Outcome(st2) {
 			vsched.InternalError("scenario %s: same schedule, different outcome:\n%s\n%s", sc.Name, sc.Outcome(st1), sc.Outcome(st2))
@@ -371,7 +393,12 @@ func exploreOnce(prop string, sc *Scenario, cfg ExploreCfg, res *Result, sites m
 						}
 					}
 					if sigs(fs2) != sigs(fs) {
-						vsched.InternalError("scenario %s: violation not reproducible on replay %d: %q vs %q (choices %v)", sc.Name, i, sigs(fs), sigs(fs2), ex.Choices)
+						// observed on the real code, but the same schedule does not reproduce it: the code
+						// under test is history dependent (e.g. a process-wide cache); report it, marked
+						for k := range fs {
+							fs[k].Msg += fmt.Sprintf("\n  (replaying the same schedule gave %q instead: the code under test is history dependent)", sigs(fs2))
+						}
+						break
 					}
 				}
 				verified[sigs(fs)] = true
